@@ -739,6 +739,58 @@ theorem projW_env_wake (c : Cfg) (s s' : State) (j : Nat) (st : step c s (.k3 j)
     · intro hs; simp [lstep, projW, hs]
   · simp at st
 
+/-! ### the scan inside `rcu_defer_num_callbacks()`
+
+`wait_defer()` calls the external function `rcu_defer_num_callbacks()`; its loads of the owners' queues are L2's `dScanQ i`
+labels (own labels of `D`, but not events of `wait_defer`'s text).  At the granularity of `wait_defer`'s events the whole
+scan is ONE step `scan f` of `D`'s local automaton: at pc `dscan`, `found` becomes `f` (it can only go from false to true).
+`scan_sound`: every L2 run of `dScanQ` labels acts on the projection exactly like `scan f` with `f` = L2's `found`
+afterwards – this is the hypothesis under which the oracle value of the call is read: "the call returned non-zero iff
+L2's `found` is true after the scan" (the model's `found` is "some scanned queue was non-empty"). -/
+
+inductive XLabel
+  | l (w : WLabel)
+  | scan (f : Bool)
+  deriving DecidableEq, Repr
+
+def xstep (c : Cfg) (ws : WState) : XLabel → Option WState
+  | .l w => lstep c ws w
+  | .scan f => if ws.dpc = .dscan ∧ (ws.found = true → f = true) then some { ws with found := f } else none
+
+theorem scan_sound (c : Cfg) : ∀ (is : List Nat) (s s' : State), s.dpc = .dscan →
+    run c s (is.map .dScanQ) = some s' → xstep c (projW s) (.scan s'.found) = some (projW s') := by
+  intro is
+  induction is with
+  | nil =>
+    intro s s' hpc h
+    simp only [List.map_nil, run, Option.some.injEq] at h
+    subst h
+    simp [xstep, projW, hpc]
+  | cons i is ih =>
+    intro s s' hpc h
+    simp only [List.map_cons, run] at h
+    split at h
+    · simp at h
+    · rename_i s1 h1
+      have hp := projW_scanQ c s s1 i h1
+      have hpc1 : s1.dpc = .dscan := by
+        have := congrArg WState.dpc hp
+        simp only [projW] at this
+        rw [this, hpc]
+      have hi := ih s1 s' hpc1 h
+      simp only [xstep, projW] at hi ⊢
+      have hf1 : s1.found = (if s.mh i ≠ s.tl i then true else s.found) := by
+        have := congrArg WState.found hp
+        simpa [projW] using this
+      by_cases hg : s1.dpc = .dscan ∧ (s1.found = true → s'.found = true)
+      · simp only [hg, and_self, if_true, true_and] at hi
+        have hgd : s.found = true → s'.found = true := by
+          intro hs; apply hg.2
+          rw [hf1]; split <;> simp [*]
+        have hd : s'.dpc = .dscan := by simp_all
+        simp [hpc, hgd, hd]
+      · simp [hg] at hi
+
 /-- the wait loop of `wait_defer` starts at L2 pc `dwloop` and ends at `d0` (the caller loops) -/
 def pcMap (f : Bool) : GWPc → WState
   | .chk => ⟨.dwloop, f⟩ | .call => ⟨.dwait, f⟩ | .asleep => ⟨.dsleep, f⟩ | .done => ⟨.d0, f⟩
